@@ -167,6 +167,34 @@ def run_case(case, seed):
     return res
 
 
+def finish(tier, cases, results):
+    """thorough tier: re-validate the Ray model against the installed Ray (never affects the verdict: a Ray that
+    cannot start here is an environment problem, and a contradiction is reported in the evidence and on stderr)"""
+    import json
+    import subprocess
+    import sys
+    out = {"executions_total": int(sum(r.get("traces", 0) for r in results))}
+    here = os.path.dirname(os.path.dirname(os.path.dirname(os.path.abspath(__file__))))
+    recorded = os.path.join(here, "conformance", "ray_wait_contract.json")
+    if os.path.exists(recorded):
+        try:
+            d = json.load(open(recorded))
+            out["ray_conformance_recorded"] = {"ray": d.get("ray"), "conforms": d.get("conforms"), "scenarios": len(d.get("checks", []))}
+        except Exception:
+            pass
+    if tier == "thorough":
+        try:
+            r = subprocess.run([sys.executable, os.path.join(here, "tools", "ray_conformance.py")], capture_output=True,
+                               text=True, timeout=300, cwd="/tmp")
+            d = json.loads(r.stdout.strip().splitlines()[-1])
+            out["ray_conformance_live"] = {"ray": d.get("ray"), "conforms": d.get("conforms"), "scenarios": len(d.get("checks", []))}
+            if d.get("conforms") is False:
+                print("WARNING: the installed Ray contradicts the wait contract modelled by wbmc/seams/fakeray.py", file=sys.stderr)
+        except Exception as e:
+            out["ray_conformance_live"] = {"ray": "unavailable", "error": repr(e)[:200]}
+    return out
+
+
 _TIER = ["quick"]
 
 
